@@ -101,6 +101,11 @@ func DeBlobProgramCode(data []byte) (_ Program, _ ExitReason) {
 	}
 	data = data[dataUsed:]
 
+	// z is the octet width of a jump-table entry (a 64-bit natural at most); |j| entries of z octets must fit 32 bits
+	if jumpTableLength > 8 || jumpTableSize >= 1<<31 {
+		pvmLogger.Errorf("jump table shape z=%d |j|=%d is not representable", jumpTableLength, jumpTableSize)
+		return Program{}, ExitPanic
+	}
 	if jumpTableLength*jumpTableSize >= 1<<32 {
 		pvmLogger.Errorf("jump table size %d bits exceed litmit of 32 bits", jumpTableLength*jumpTableSize)
 		return Program{}, ExitPanic
@@ -114,6 +119,10 @@ func DeBlobProgramCode(data []byte) (_ Program, _ ExitReason) {
 		return Program{}, ExitPanic
 	}
 
+	if instSize > uint64(len(data)) {
+		pvmLogger.Errorf("instruction size %d exceeds the remaining blob (%d octets)", instSize, len(data))
+		return Program{}, ExitPanic
+	}
 	instructions := data[:instSize]
 	bitmaskData := data[instSize:]
 	bitmask, exitReason := MakeBitMasks(instructions, bitmaskData)
